@@ -88,6 +88,9 @@ func cmdCheck(args []string) int {
 	defer c.cleanup()
 	start := time.Now()
 	err = fn(c)
+	if err == nil {
+		err = c.infraErr
+	}
 	c.Wall = time.Since(start).Seconds()
 	if err != nil {
 		fmt.Fprintf(os.Stderr, "INFRA: property=%s %v\n", id, err)
